@@ -52,8 +52,10 @@ ASSUMPTIONS = [
     "via the manager: exponent is hard-wired to 1.0; all components reported working",
 ]
 MIN_LABELS = {
-    "C01": {"min_power": 0.2, "zero_headroom": 0.1, "share_below_min": 0.03, "beyond_incl": 0.1, "multi_inverter": 0.2},
-    "C02": {"min_power": 0.2, "zero_headroom": 0.1, "share_below_min": 0.03, "beyond_incl": 0.1, "multi_inverter": 0.2},
+    "C01": {"min_power": 0.2, "zero_headroom": 0.1, "share_below_min": 0.03, "beyond_incl": 0.1, "multi_inverter": 0.2,
+            "several_shares_below_min_with_donor": 0.05},
+    "C02": {"min_power": 0.2, "zero_headroom": 0.1, "share_below_min": 0.03, "beyond_incl": 0.1, "multi_inverter": 0.2,
+            "several_shares_below_min_with_donor": 0.05},
 }
 
 
@@ -61,7 +63,7 @@ def strategy(tier: str, pid: str = "C01") -> st.SearchStrategy[Any]:
     del pid
     max_groups = 5 if tier == "quick" else 7
     return st.fixed_dictionaries({
-        "groups": batsys.groups(max_groups=max_groups),
+        "groups": batsys.groups(max_groups=max_groups, stress_pct=40),
         "exp": st.one_of(st.sampled_from([0.0, 0.5, 1.0, 1.0, 2.0, 3.0]), st.floats(0.0, 4.0)),
         "req": batsys.request_strategy(),
         "mode": st.sampled_from(["direct"] * 24 + ["manager"]),
@@ -109,10 +111,18 @@ def _classify(v: Verdict, case: dict[str, Any], power: float) -> None:
         weights.append(gb["capacity"] * (head ** case["exp"] if head > 0 else 0.0))
     total = sum(weights)
     share_below = False
+    n_below = n_donor = 0
     if total > 0:
         for gb, w in zip(gbs, weights):
             if w > 0 and abs(power) * w / total < gb[f"min_power_{tag}"]:
                 share_below = True
+                n_below += 1
+            elif w > 0 and abs(power) * w / total > gb[f"min_power_{tag}"]:
+                n_donor += 1
+    if n_below >= 2 and n_donor >= 1:
+        v.labels.add("several_shares_below_min_with_donor")
+        if n_donor >= 2:
+            v.labels.add("several_shares_below_min_several_donors")
     for flag, name in ((min_power, "min_power"), (zero_head, "zero_headroom"), (multi_inv, "multi_inverter"),
                        (beyond, "beyond_incl"), (share_below, "share_below_min")):
         if flag:
